@@ -26,7 +26,7 @@ theorem cells_set (h : Heap) (a b : Nat) (v : List H) :
   · subst hab
     by_cases hl : a < h.length
     · simp [hl]
-    · simp [hl, List.getElem?_eq_none (Nat.le_of_not_lt hl)]
+    · simp [hl]
   · simp [hab]
 
 /-- a slice fits its array -/
@@ -200,8 +200,8 @@ theorem appendS_spec (pol : Pol) (h : Heap) (s : Slice) (xs : List H) (hv : Vali
         by_cases hi : s.arr = i
         · subst hi
           by_cases hl : s.arr < h.length
-          · simp [hl, cells, List.getElem?_eq_getElem hl]
-          · simp [hl, List.getElem?_eq_none (Nat.le_of_not_lt hl)]
+          · simp [hl, cells]
+          · simp [hl]
         · simp [hi]
       simp only [hset, List.length_nil, Nat.add_zero, List.append_nil]
       exact ⟨ext_refl _ _, by omega, hv, trivial, freshOr_refl _ _⟩
